@@ -32,6 +32,16 @@ type anyStruct struct {
 	Data any
 }
 
+// a struct that embeds a pointer to another struct; the pointer may be nil
+type embInner struct{ X int }
+type embOuter struct {
+	*embInner
+	Y int
+}
+
+// a map whose key type is a named string type
+type namedKey string
+
 type ptrStruct struct {
 	A int
 	P *int
@@ -135,6 +145,11 @@ func Universe() []UVal {
 		rawU("map[any]any", func() any { return map[any]any{"a": 1, 2: "b", true: nil} }),
 		rawU("time", func() any { return time.Date(2024, 2, 29, 13, 14, 15, 0, time.UTC) }),
 		rawU("[]byte", func() any { return []byte("bytes") }),
+		rawU("struct{nil-embedded}", func() any { return embOuter{Y: 1} }),
+		rawU("*struct{embedded}", func() any { return &embOuter{embInner: &embInner{X: 7}, Y: 2} }),
+		rawU("map[named]any", func() any { return map[namedKey]any{"k": 1, "title": "t"} }),
+		rawU("[]map[named]any", func() any { return []any{map[namedKey]any{"k": 2}, map[namedKey]any{"k": 1}} }),
+		rawU("*time", func() any { t := time.Date(2024, 2, 29, 13, 14, 15, 0, time.FixedZone("X", 3600)); return &t }),
 		rawU("struct", func() any { return dataStruct{Title: "T", Count: 3, Tags: []string{"x", "y"}, Named: "nm", inner: 1} }),
 		rawU("*struct", func() any { return &dataStruct{Title: "P", Count: 4} }),
 		rawU("(*struct)(nil)", func() any { var p *dataStruct; return p }),
